@@ -141,12 +141,21 @@ pub fn case(rng: &mut Rng) -> String {
         _ => {
             let n = 1 + rng.below(3);
             let tp = TreeParams { in_dim: n, out_dim: 1 + rng.below(2), max_depth: 2 + rng.below(2), partial16: *rng.pick(&[0, 3]), holes: rng.chance(1, 2), palette: 0 };
-            let t: AffTree<2> = rand_tree(rng, &tp);
             let dot = rng.chance(1, 2);
-            write!(out, "{} ", if dot { "dot" } else { "display" }).unwrap();
-            enc::afftree(&mut out, &t);
-            let s = if dot { format!("{}", Dot::from(&t)) } else { format!("{}", t) };
-            write!(out, " | {}", enc::hex(&s)).unwrap();
+            if !dot && rng.chance(1, 2) {
+                // K = 4 (Display only, `Dot` is binary): decisions with one or two rows, every row has to be shown
+                out.push_str("display ");
+                let t: AffTree<4> = rand_tree(rng, &tp);
+                enc::afftree(&mut out, &t);
+                let s = format!("{}", t);
+                write!(out, " | {}", enc::hex(&s)).unwrap();
+            } else {
+                write!(out, "{} ", if dot { "dot" } else { "display" }).unwrap();
+                let t: AffTree<2> = rand_tree(rng, &tp);
+                enc::afftree(&mut out, &t);
+                let s = if dot { format!("{}", Dot::from(&t)) } else { format!("{}", t) };
+                write!(out, " | {}", enc::hex(&s)).unwrap();
+            }
         }
     }
     out
